@@ -93,6 +93,13 @@ func c06Apply(r *verifRig, m *Message, d c06Defects, T int) (S int, sReadable bo
 		m.Header.SetString(tagMsgSeqNum, "1x")
 		sReadable = false
 	}
+	if d.d34 == 1 && !d.possDup && d.d52 == 0 && ndBool("stray-origsendingtime") {
+		// not a retransmission (PossDupFlag absent or N) although an OrigSendingTime is present: still a too-low number
+		if ndBool("possdup-explicitly-N") {
+			m.Header.SetBool(tagPossDupFlag, false)
+		}
+		m.Header.SetField(tagOrigSendingTime, FIXUTCTimestamp{Time: sent.Add(-time.Minute)})
+	}
 	if d.possDup {
 		// a consistent retransmission: OrigSendingTime precedes the (possibly shifted) SendingTime
 		m.Header.SetBool(tagPossDupFlag, true)
